@@ -313,7 +313,9 @@ pub fn registry() -> Vec<Entry> {
     for p in [1.0f64, 0.9, 2.0 / 3.0, 0.66, 0.5, 0.25, 0.01, 1e-3, 1e-5, 1e-7, 1e-9, 1e-10, 1e-11, 1e-12, 1e-13, 1e-14, 1e-15, 3e-16, 0.0, 1e-17] {
         ent!(v, "Geometric", "int", "-", [p], Geometric::new(p).ok().and_then(b::<_, u64>)); }
     for (nn, k, s, var) in [(10u64, 5u64, 5u64, "HIN"), (9, 3, 5, "HIN"), (9, 6, 4, "HIN"), (100, 30, 20, "HIN"), (100, 70, 80, "HIN"), (1000, 500, 500, "H2PE"), (1000, 501, 500, "H2PE"),
-                            (10000, 5000, 300, "H2PE"), (10000, 7000, 9000, "H2PE"), (40, 20, 20, "H2PE"), (1u64 << 40, 1 << 39, 1000, "H2PE"), (50, 0, 10, "HIN"), (50, 50, 10, "HIN")] {
+                            (10000, 5000, 300, "H2PE"), (10000, 7000, 9000, "H2PE"), (40, 20, 20, "H2PE"), (1u64 << 40, 1 << 39, 1000, "H2PE"), (50, 0, 10, "HIN"), (50, 50, 10, "HIN"),
+                            // H2PE just above the HIN threshold (mode 10..12), plain and reflected
+                            (1000, 100, 105, "H2PE"), (5000, 60, 900, "H2PE"), (50000, 49900, 5300, "H2PE"), (3000, 2700, 2880, "H2PE"), (200000, 150, 15000, "H2PE")] {
         ent!(v, "Hypergeometric", "int", var, [nn, k, s], Hypergeometric::new(nn, k, s).ok().and_then(b::<_, u64>)); }
     for ws in [vec![2u32, 1, 1], vec![0, 3, 7, 0, 1], vec![1; 17]] {
         let w2 = ws.clone(); let w3 = ws.clone();
